@@ -171,23 +171,24 @@ def gen_lime(rng, tier):
 def gen_kshap(rng, tier, F2=False):
     kind, shape = gen_shape(rng, tier)
     npos, c = npos_of(kind, shape), chan_of(kind, shape)
+    while not F2 and npos < 3:                 # the exactness stream has F >= 3 (F = 2: separate small stream)
+        kind, shape = gen_shape(rng, tier)
+        npos, c = npos_of(kind, shape), chan_of(kind, shape)
     if F2:
-        kind, shape, npos, c = "tab", [rng.randint(2, 4)], None, 1
-        npos = shape[0]
+        kind = rng.choice(["tab", "ts", "img"])
+        shape = {"tab": [rng.randint(2, 4)], "ts": [1, rng.randint(2, 3)], "img": [2, rng.randint(1, 2), rng.choice([1, 3])]}[kind]
+        npos, c = npos_of(kind, shape), chan_of(kind, shape)
     n = rng.randint(1, 2)
     if F2:
-        maps = [rand_map(rng, npos, 2)] * n if npos > 2 else None
-        Fs = [2] * n
-    elif kind != "img" and npos >= 3 and rng.random() < 0.3:
+        maps, Fs = [rand_map(rng, npos, 2) for _ in range(n)], [2] * n
+    elif kind != "img" and rng.random() < 0.3:
         maps, Fs = None, [npos] * n
     else:
         maps, Fs = [], []
         for i in range(n):
-            F = rng.randint(3, min(8, npos)) if npos >= 3 else npos
+            F = rng.randint(3, min(8, npos))
             maps.append(rand_map(rng, npos, F))
             Fs.append(F)
-    if min(Fs) < 2:
-        return gen_kshap(rng, tier, F2)
     has_default = kind != "img" or c in (1, 3)
     ref = None if (has_default and rng.random() < 0.4) else [rng.choice([0.0, 0.25, -0.5, 0.5, 1.0]) for _ in range(c)]
     nb = max(Fs) + rng.choice([1, 2, 3, 6, 12, 20, 30])
@@ -488,9 +489,11 @@ def kshap_term(case, res):
     for i, r in enumerate(res["recs"]):
         F = case_F(case, i)
         exact = full_rank(r["Z"])
-        if F == 2:
+        if F == 2 and rank([list(z) + [1] for z in r["Z"]]) == 2:
+            # structurally singular (rank 2 is the most an F = 2 design can reach): the property still claims
+            # exactness -> compared; the disagreement is the known finding C07-kshap-F2
             EXTRA_COVERAGE["kshap_F2_cases"] += 1
-            exact = True                       # structurally singular: the property still claims exactness (known finding)
+            exact = True
         elif exact:
             EXTRA_COVERAGE["kshap_exactness_checked"] += 1
         else:
